@@ -849,7 +849,7 @@ func getLongestStaticPath(rule PlacementRule) (staticPath, ruleChain string, fou
 		}
 
 		queueName := r.Value
-		qualified := strings.HasPrefix(queueName, RootQueue)
+		qualified := strings.EqualFold(queueName, RootQueue) || strings.HasPrefix(strings.ToLower(queueName), RootQueue+DOT)
 		if qualified {
 			if staticPath != "" {
 				// error, only the first fixed rule can be fully qualified
